@@ -194,13 +194,30 @@ func (s *scope) CreateScope(ctx context.Context) (Scope, error) {
 
 	// Track child
 	s.childrenMu.Lock()
-	s.children[child] = struct{}{}
+	parentClosed := s.children == nil
+	if !parentClosed {
+		s.children[child] = struct{}{}
+	}
 	s.childrenMu.Unlock()
+
+	// This scope was closed while the child was being created
+	if parentClosed {
+		_ = child.Close()
+		return nil, ErrScopeDisposed
+	}
 
 	// Track in provider
 	s.rootProvider.scopesMu.Lock()
-	s.rootProvider.scopes[child] = struct{}{}
+	providerClosed := s.rootProvider.scopes == nil
+	if !providerClosed {
+		s.rootProvider.scopes[child] = struct{}{}
+	}
 	s.rootProvider.scopesMu.Unlock()
+
+	if providerClosed {
+		_ = child.Close()
+		return nil, ErrScopeDisposed
+	}
 
 	// Auto-close on context cancellation
 	go func() {
@@ -302,14 +319,25 @@ func (s *scope) setInstance(descriptor *Descriptor, key instanceKey, instance an
 		s.rootProvider.setSingleton(key, instance)
 	case Scoped:
 		s.instancesMu.Lock()
-		s.instances[key] = instance
+		if s.instances != nil { // nil once the scope has been closed
+			s.instances[key] = instance
+		}
 		s.instancesMu.Unlock()
 		fallthrough
 	case Transient:
 		if d, ok := instance.(Disposable); ok {
 			s.disposablesMu.Lock()
-			s.disposables = append(s.disposables, d)
+			closed := s.disposables == nil // drained by Close
+			if !closed {
+				s.disposables = append(s.disposables, d)
+			}
 			s.disposablesMu.Unlock()
+
+			// The scope was closed while this instance was being constructed:
+			// nobody will dispose it later, so do it now.
+			if closed {
+				_ = d.Close()
+			}
 		}
 	}
 }
